@@ -702,7 +702,94 @@ def check_long(case):
     check_layout(case, direct=True)
 
 
-SUBS = {"short": check_layout, "long": check_long}
+# ---------------------------------------------------------------------------------------------
+# sub: remode   one long-lived Text whose text / wrap / alignment are changed through its public setters
+
+SETTERS = ("set_text", "set_wrap_mode", "set_align_mode", "set_layout", "wrap=", "align=", "set_layout+text")
+
+
+def check_remode(case):
+    """case: {"enc", "bytes", "width", "first": {"text","wrap","align"}, "steps": [[setter, text, wrap, align], ...]}.
+    "the row count reported for a width equals the number of lines rendered at that width" and the lines shown are
+    those of the widget's *current* text, wrap mode and alignment: after every setter the widget must render and
+    count rows exactly like a freshly built Text with the same parameters (the canvas cache is left alone - a
+    setter that forgets to invalidate shows the old layout)."""
+    enc, is_bytes, width = case["enc"], bool(case["bytes"]), case["width"]
+    _set_encoding(enc)
+    cur = dict(case["first"])
+
+    def conv(t):
+        return tinfo(enc, is_bytes, t).text
+
+    w = urwid.Text(conv(cur["text"]), align=cur["align"], wrap=cur["wrap"])
+    w.render((width,))
+    w.rows((width,))
+    for k, (setter, text, wrap, align) in enumerate(case["steps"]):
+        if setter == "set_text":
+            cur["text"] = text
+            w.set_text(conv(text))
+        elif setter == "set_wrap_mode":
+            cur["wrap"] = wrap
+            w.set_wrap_mode(wrap)
+        elif setter == "set_align_mode":
+            cur["align"] = align
+            w.set_align_mode(align)
+        elif setter == "set_layout":
+            cur["wrap"], cur["align"] = wrap, align
+            w.set_layout(align, wrap)
+        elif setter == "wrap=":
+            cur["wrap"] = wrap
+            w.wrap = wrap
+        elif setter == "align=":
+            cur["align"] = align
+            w.align = align
+        else:
+            cur["text"], cur["wrap"], cur["align"] = text, wrap, align
+            w.set_layout(align, wrap)
+            w.set_text(conv(text))
+        got_rows = w.rows((width,))
+        got = [bytes(r) for r in w.render((width,)).text]
+        fresh = urwid.Text(conv(cur["text"]), align=cur["align"], wrap=cur["wrap"])
+        urwid.CanvasCache.invalidate(fresh)
+        exp = [bytes(r) for r in fresh.render((width,)).text]
+        exp_rows = len(exp)
+        what = f"[{enc} width {width}] step {k} {setter} -> text {cur['text']!r} wrap {cur['wrap']} align {cur['align']}"
+        if got != exp:
+            raise Violation("setter-not-reflected", f"{what}: the widget renders {got!r}, a new Text with these settings {exp!r}")
+        if got_rows != exp_rows:
+            raise Violation("rows", f"{what}: rows() says {got_rows}, {exp_rows} lines are rendered")
+
+
+def _remode_strategy():
+    def for_enc(enc):
+        letters = LETTERS[enc]
+        word = st.lists(st.sampled_from(letters), min_size=1, max_size=8).map("".join)
+        token = st.one_of(word, st.just(" "), st.just("  "), st.just("\n"))
+        text = st.lists(token, max_size=10).map(lambda toks: "".join(toks)[:30])
+        step = st.tuples(st.sampled_from(SETTERS), text, st.sampled_from(WRAPS), st.sampled_from(ALIGNS)).map(list)
+        return st.fixed_dictionaries({
+            "enc": st.just(enc), "bytes": st.booleans(), "width": st.integers(1, 16),
+            "first": st.fixed_dictionaries({"text": text, "wrap": st.sampled_from(WRAPS), "align": st.sampled_from(ALIGNS)}),
+            "steps": st.lists(step, min_size=1, max_size=6),
+        })
+
+    return st.sampled_from(ENCODINGS).flatmap(for_enc)
+
+
+def remode_sweep():
+    """every (wrap, align) -> (wrap', align') transition through every setter that can make it, on one text that wraps"""
+    for enc in ENCODINGS:
+        text = "ab cd " + LETTERS[enc][-1] * 2 + " efg\nh"
+        for w0 in WRAPS:
+            for a0 in ALIGNS:
+                for w1 in WRAPS:
+                    for a1 in ALIGNS:
+                        for setter in ("set_layout", "set_wrap_mode", "set_align_mode", "wrap=", "align="):
+                            yield {"enc": enc, "bytes": False, "width": 5, "first": {"text": text, "wrap": w0, "align": a0},
+                                   "steps": [[setter, text, w1, a1]]}
+
+
+SUBS = {"short": check_layout, "long": check_long, "remode": check_remode}
 
 
 # ---------------------------------------------------------------------------------------------
@@ -747,10 +834,13 @@ def short_cases(ctx, encodings, maxlen, widths, kinds=(False, True), minlen=0):
                 if not ctx.mine(idx):
                     continue
                 s = "".join(tup)
+                # quick tier: strings of the maximal length get one alignment each (rotating over the strings; the
+                # alignment only decides the padding, which every shorter string exercises in full) - cost bound
+                thin = ctx.tier == "quick" and n == maxlen and n >= 5
                 for is_bytes in kinds:
                     for width in widths:
                         for wrap in WRAPS:
-                            for align in ALIGNS:
+                            for align in ((ALIGNS[(idx + width) % len(ALIGNS)],) if thin else ALIGNS):
                                 yield {"enc": enc, "bytes": is_bytes, "text": s, "width": width, "wrap": wrap, "align": align}
 
 
@@ -782,7 +872,7 @@ def shard(ctx):
     widths = range(1, 9)
     maxlen = ctx.scale(5, 6)
     ctx.sweep("short", short_cases(ctx, ENCODINGS, maxlen, widths), nontrivial=is_nontrivial, classify=classify,
-              exhaustive_name=f"all strings of length <= {maxlen} x width 1..8 x wrap x align x str/bytes x 3 encodings",
+              exhaustive_name=f"all strings of length <= {maxlen} x width 1..8 x wrap x align (quick: one rotating alignment for the longest strings) x str/bytes x 3 encodings",
               stride=False)
     if ctx.failure is None and ctx.tier == "thorough":
         ctx.sweep("short", short_cases(ctx, ("utf-8",), 7, range(1, 5), kinds=(False,), minlen=7),
@@ -790,6 +880,12 @@ def shard(ctx):
                   exhaustive_name="utf-8 str strings of length 7 x width 1..4 x wrap x align", stride=False)
     if ctx.failure is None:
         ctx.given("long", _long_strategy(), ctx.scale(1500, 30000), nontrivial=is_nontrivial, classify=classify)
+    if ctx.failure is None:
+        ctx.sweep("remode", remode_sweep(), nontrivial=lambda c: True, classify=lambda c: ["remode:sweep"],
+                  exhaustive_name="every wrap/align transition through each setter on a long-lived Text")
+    if ctx.failure is None:
+        ctx.given("remode", _remode_strategy(), ctx.scale(300, 6000), nontrivial=lambda c: len(c["steps"]) >= 2,
+                  classify=lambda c: ["remode:" + s[0] for s in c["steps"]])
     for k, v in sorted(STATS.items()):
         ctx.count(k, v)
 
